@@ -17,7 +17,7 @@ import (
 
 func genC05Case(t *rapid.T) colCase {
 	cfg := genLifecycleCfg(t)
-	cfg.DryRun = true
+	cfg.DryRun = rapid.IntRange(0, 3).Draw(t, "startdry") > 0 // DryRun is reloadable: sometimes it is switched on later
 	cfg.AddReason = rapid.Bool().Draw(t, "addreason")
 	c := colCase{Cfg: cfg}
 	opGen := rapid.Custom(func(t *rapid.T) opSpec {
@@ -26,8 +26,11 @@ func genC05Case(t *rapid.T) colCase {
 			o := genSpanOp(t, []string{"incoming", "incoming", "peer"})
 			o.ClientRate = rapid.SampledFrom(c04ClientRates).Draw(t, "crate5")
 			return o
-		case k <= 18:
+		case k <= 16:
 			return genAdvanceOp(t)
+		case k <= 18:
+			on := rapid.IntRange(0, 3).Draw(t, "dryon") > 0
+			return opSpec{Op: "reload", Reload: &reloadSpec{DryRun: &on}}
 		default:
 			return opSpec{Op: "eject", Bytes: rapid.SampledFrom([]int{0, 50, 100000}).Draw(t, "bytes")}
 		}
@@ -82,6 +85,29 @@ func judgeC05(c colCase, obs colObs) (res vkit.Result, nt bool) {
 		res.Violate("C05/harness-or-collector-panic", "%s", obs.Panic)
 		return
 	}
+	// dryAt(op): is DryRun on while op executes; dryFrom(op): is it on during op and every later op
+	// (including the drain phase, index len(ops))
+	dryAt := func(op int) bool { return cfgInForce(c, obs, op).DryRun }
+	dryFrom := func(op int) bool {
+		for i := op; i <= len(c.Ops); i++ {
+			if !dryAt(i) {
+				return false
+			}
+		}
+		return true
+	}
+	samplerReloaded := false
+	for _, r := range obs.Reloads {
+		if r.Snap.Sampler != c.Cfg.Sampler {
+			samplerReloaded = true
+		}
+	}
+	toggled := false
+	for _, r := range obs.Reloads {
+		if r.Snap.DryRun != c.Cfg.DryRun {
+			toggled = true
+		}
+	}
 	views := viewByTrace(c, obs)
 	for _, id := range sortedTraceIDs(views) {
 		v := views[id]
@@ -101,15 +127,24 @@ func judgeC05(c colCase, obs colObs) (res vkit.Result, nt bool) {
 		for _, a := range v.Accepted {
 			fs := fw[a.UID]
 			if len(fs) == 0 {
-				res.Violate("C05/span-not-forwarded", "dry run: span %s of trace %s (arrived %v via %s) was never forwarded", a.UID, id, a.At, a.Via)
+				if dryFrom(a.OpIndex) {
+					res.Violate("C05/span-not-forwarded", "dry run on from the arrival of span %s of trace %s (op %d, %v via %s) to the end, yet it was never forwarded", a.UID, id, a.OpIndex, a.At, a.Via)
+				}
 				continue
 			}
 			if len(fs) > 1 {
-				res.Violate("C05/span-forwarded-twice", "dry run: span %s forwarded %d times", a.UID, len(fs))
+				res.Violate("C05/span-forwarded-twice", "span %s forwarded %d times", a.UID, len(fs))
 			}
 			f := fs[0]
+			if !dryAt(f.OpIndex) {
+				continue // forwarded while dry run was off: C01/C04 territory
+			}
 			if f.OpIndex == a.OpIndex && a.At >= firstFwd.At {
 				late = true
+			}
+			how := "started-on"
+			if !c.Cfg.DryRun {
+				how = "enabled-by-reload"
 			}
 			eff := a.ClientRate
 			if eff < 1 {
@@ -117,11 +152,11 @@ func judgeC05(c colCase, obs colObs) (res vkit.Result, nt bool) {
 			}
 			// "absent and zero being equivalent": for a client rate of 0 both 0 and 1 are the client's rate
 			if f.Rate != eff && !(a.ClientRate == 0 && f.Rate == 0) {
-				res.Violate("C05/sample-rate-not-client-rate", "dry run: span %s forwarded with SampleRate %d, client rate %d", a.UID, f.Rate, a.ClientRate)
+				res.Violate("C05/sample-rate-not-client-rate/"+how, "dry run: span %s forwarded during op %d with SampleRate %d, client rate %d", a.UID, f.OpIndex, f.Rate, a.ClientRate)
 			}
 			k, ok := f.Fields["meta.refinery.dryrun.kept"].(bool)
 			if !ok {
-				res.Violate("C05/marker-missing", "dry run: span %s forwarded without meta.refinery.dryrun.kept (fields %v)", a.UID, f.Fields)
+				res.Violate("C05/marker-missing/"+how, "dry run: span %s forwarded during op %d without meta.refinery.dryrun.kept", a.UID, f.OpIndex)
 				continue
 			}
 			if marker == nil {
@@ -136,7 +171,7 @@ func judgeC05(c colCase, obs colObs) (res vkit.Result, nt bool) {
 				res.Violate("C05/marker-differs-from-recorded-decision", "trace %s: decision cache says kept=%v, spans marked %v", id, d.Kept, *marker)
 			}
 			// prediction where the decision does not depend on timing and the sampler was never reloaded
-			if len(obs.Reloads) == 0 {
+			if !samplerReloaded {
 				var atDecision []accSpan
 				for _, a := range v.Accepted {
 					if a.At < firstFwd.At {
@@ -157,6 +192,9 @@ func judgeC05(c colCase, obs colObs) (res vkit.Result, nt bool) {
 				res.Class("late-span")
 			}
 		}
+	}
+	if toggled {
+		res.Class("dryrun-toggled-by-reload")
 	}
 	return
 }
